@@ -292,7 +292,7 @@ def main():
     print("wrote plan.json, MANIFEST.json:", len(checks), "checks,", len(NOT_YET), "not_applicable")
 
 HOOK_COMMITS = ["3c7b69a"]
-FIX_COMMITS = ["0598fcf", "bc247e1", "811bf5f", "d0efe8d", "71da244", "db6be61", "1b3383f", "56251f9", "86dc6a3", "74ba7fd", "cbab019", "ea19641", "6120dbe", "2b98425", "ee29417"]
+FIX_COMMITS = ["0598fcf", "bc247e1", "811bf5f", "d0efe8d", "71da244", "db6be61", "1b3383f", "56251f9", "86dc6a3", "74ba7fd", "cbab019", "ea19641", "6120dbe", "2b98425", "ee29417", "d32d18b"]
 
 if __name__ == "__main__":
     main()
